@@ -794,36 +794,66 @@ func (vfs *MemFS) removeAll(parent *dirNode) error {
 // OS-specific restrictions may apply when oldpath and newpath are in different directories.
 // If there is an error, it will be of type *LinkError.
 func (vfs *MemFS) Rename(oldpath, newpath string) error {
+	// One rename at a time: two concurrent renames of directories into each other would create a cycle.
+	vfs.renameMu.Lock()
+	defer vfs.renameMu.Unlock()
+
+	for {
+		done, err := vfs.rename(oldpath, newpath)
+		if done {
+			return err
+		}
+	}
+}
+
+// rename is one attempt of Rename. It returns done == false when the tree changed
+// between the lookups, which are made without holding locks, and the locking of the two directories.
+func (vfs *MemFS) rename(oldpath, newpath string) (done bool, err error) {
 	const op = "rename"
 
 	oParent, oChild, oPI, oErr := vfs.searchNode(oldpath, slmLstat)
 	if oErr != vfs.err.FileExists {
-		return &os.LinkError{Op: op, Old: oldpath, New: newpath, Err: oErr}
+		return true, &os.LinkError{Op: op, Old: oldpath, New: newpath, Err: oErr}
 	}
 
 	nParent, nChild, nPI, nErr := vfs.searchNode(newpath, slmLstat)
 	if nErr != vfs.err.FileExists && !vfs.isNotExist(nErr) || vfs.isNotExist(nErr) && !nPI.IsLast() {
-		return &os.LinkError{Op: op, Old: oldpath, New: newpath, Err: nErr}
+		return true, &os.LinkError{Op: op, Old: oldpath, New: newpath, Err: nErr}
 	}
 
-	oParent.mu.Lock()
-	defer oParent.mu.Unlock()
+	// Lock the two directories in one order for all callers: the directory closer to the root first
+	// (as Remove, RemoveAll and ReadDir lock a directory before its children), the smaller path otherwise.
+	first, second := oParent, nParent
+	if oDir, nDir := oPI.Left(), nPI.Left(); len(nDir) < len(oDir) || len(nDir) == len(oDir) && nDir < oDir {
+		first, second = nParent, oParent
+	}
+
+	first.mu.Lock()
+	defer first.mu.Unlock()
+
+	if second != first {
+		second.mu.Lock()
+		defer second.mu.Unlock()
+	}
+
+	// Start again if one of the entries changed since it was looked up (the root directory has no entry).
+	if oChild != node(oParent) && oParent.children[oPI.Part()] != oChild ||
+		nChild != node(nParent) && nParent.children[nPI.Part()] != nChild {
+		return false, nil
+	}
 
 	if !oParent.checkPermission(avfs.OpenWrite, vfs.User()) {
-		return &os.LinkError{Op: op, Old: oldpath, New: newpath, Err: vfs.err.PermDenied}
+		return true, &os.LinkError{Op: op, Old: oldpath, New: newpath, Err: vfs.err.PermDenied}
 	}
 
 	if nParent != oParent {
-		nParent.mu.Lock()
-		defer nParent.mu.Unlock()
-
 		if !nParent.checkPermission(avfs.OpenWrite, vfs.User()) {
-			return &os.LinkError{Op: op, Old: oldpath, New: newpath, Err: vfs.err.PermDenied}
+			return true, &os.LinkError{Op: op, Old: oldpath, New: newpath, Err: vfs.err.PermDenied}
 		}
 	}
 
 	if oPI.Path() == nPI.Path() {
-		return nil
+		return true, nil
 	}
 
 	switch oChild.(type) {
@@ -833,13 +863,13 @@ func (vfs *MemFS) Rename(oldpath, newpath string) error {
 				nErr = avfs.ErrWinAccessDenied
 			}
 
-			return &os.LinkError{Op: op, Old: oldpath, New: newpath, Err: nErr}
+			return true, &os.LinkError{Op: op, Old: oldpath, New: newpath, Err: nErr}
 		}
 
 		if o, n := oPI.Path(), nPI.Path(); len(n) > len(o) && len(o) > 0 && n[:len(o)] == o &&
 			(avfs.IsPathSeparator(vfs, o[len(o)-1]) || avfs.IsPathSeparator(vfs, n[len(o)])) {
 			// a directory can't be moved below itself.
-			return &os.LinkError{Op: op, Old: oldpath, New: newpath, Err: vfs.err.InvalidArgument}
+			return true, &os.LinkError{Op: op, Old: oldpath, New: newpath, Err: vfs.err.InvalidArgument}
 		}
 
 	case *fileNode, *symlinkNode:
@@ -849,7 +879,7 @@ func (vfs *MemFS) Rename(oldpath, newpath string) error {
 
 		if nChild == oChild {
 			// oldpath and newpath are hard links to the same file: nothing to do.
-			return nil
+			return true, nil
 		}
 
 		switch nc := nChild.(type) {
@@ -868,14 +898,14 @@ func (vfs *MemFS) Rename(oldpath, newpath string) error {
 				err = avfs.ErrWinAccessDenied
 			}
 
-			return &os.LinkError{Op: op, Old: oldpath, New: newpath, Err: err}
+			return true, &os.LinkError{Op: op, Old: oldpath, New: newpath, Err: err}
 		}
 	}
 
 	nParent.addChild(nPI.Part(), oChild)
 	oParent.removeChild(oPI.Part())
 
-	return nil
+	return true, nil
 }
 
 // SameFile reports whether fi1 and fi2 describe the same file.
